@@ -103,23 +103,46 @@ Definition render_name (s : bytes) (c : choices) : bytes * choices :=
 
 Definition octal3 (b : byte) : bytes := [48 + b / 64; 48 + (b / 8) mod 8; 48 + b mod 8].
 
+(* Literal strings (ISO 32000 7.3.4.2).  Every end-of-line of the value is written, for each
+   occurrence independently, as a raw LF, a raw CR, a raw CR LF (each reads as one LF), \n or
+   \012; a CR of the value only as \r or \015 (a raw one would read as LF); before any byte
+   a backslash + EOL continuation (LF, CR or CR LF) may be inserted, which the reader drops.
+   A raw CR that is written for an end-of-line must not be followed by a raw LF of the next
+   piece (the two would read as ONE end-of-line): [next10] says whether what follows begins
+   with LF, and CR LF is written instead in that case. *)
+Definition starts10 (l : bytes) : bool := match l with b :: _ => b =? 10 | [] => false end.
+
+Definition lit_one (b k : N) (next10 : bool) : bytes :=
+  if (b =? 40) || (b =? 41) || (b =? 92) then [92; b]
+  else if b =? 13 then (if k <? 10 then [92; 114] else 92 :: octal3 b)
+  else if b =? 10 then
+    (if k <? 3 then [92; 110]
+     else if k <? 5 then 92 :: octal3 b
+     else if k <? 9 then [10]
+     else if k <? 12 then (if next10 then [13; 10] else [13])
+     else [13; 10])
+  else if b =? 9 then (if k <? 4 then [92; 116] else if k <? 8 then 92 :: octal3 b else [9])
+  else if b =? 8 then [92; 98]
+  else if b =? 12 then [92; 102]
+  else if k <? 3 then 92 :: octal3 b
+  else [b].
+
+Definition lit_cont (k : N) (next10 : bool) : bytes :=
+  if k =? 0 then [92; 10]
+  else if k =? 1 then (if next10 then [92; 13; 10] else [92; 13])
+  else if k =? 2 then [92; 13; 10]
+  else [].
+
 Fixpoint render_lit_bytes (s : bytes) (c : choices) : bytes * choices :=
   match s with
   | [] => ([], c)
   | b :: s' =>
     let '(k, c1) := pick 16 c in
-    let '(r, c2) := render_lit_bytes s' c1 in
-    let cont := if k =? 15 then [92; 10] else if k =? 14 then [92; 13; 10] else [] in   (* backslash + EOL: ignored *)
-    let one :=
-      if (b =? 40) || (b =? 41) || (b =? 92) then [92; b]
-      else if b =? 13 then [92; 114]
-      else if b =? 10 then (if k <? 8 then [92; 110] else [10])
-      else if b =? 9 then (if k <? 4 then [92; 116] else if k <? 8 then 92 :: octal3 b else [9])
-      else if b =? 8 then [92; 98]
-      else if b =? 12 then [92; 102]
-      else if k <? 3 then 92 :: octal3 b
-      else [b] in
-    (cont ++ one ++ r, c2)
+    let '(k2, c2) := pick 20 c1 in
+    let '(r, c3) := render_lit_bytes s' c2 in
+    let one := lit_one b k (starts10 r) in
+    let cont := lit_cont k2 (starts10 (one ++ r)) in
+    (cont ++ one ++ r, c3)
   end.
 
 Fixpoint render_hex_bytes (s : bytes) (c : choices) : bytes * choices :=
